@@ -301,6 +301,9 @@ def run(rep: Report, tier: str) -> None:
     rep.instance("R14.5", "reachable-from-loader", sample={"loader": loaders, "functions": n5})
     rep.floor("R14.5 functions reachable from the structure loader", n5, 5)
     # ---- R14.6 the representation step converts every Time_Period value before the file is written (shared with C04 R04.12) ----
+    rep.rule("R14.7", "a DATE column of a result is rendered to text inside the one SELECT that feeds the DataFrame fetch, the CSV and the Parquet file (evaluated "
+                      "_build_dataset_fetch_select): the three sinks receive the same values")
+    _date_columns_as_text(P, rep, "R14.7")
     rep.rule("R14.6", "apply_time_period_representation (run on the table before COPY ... TO) selects every row in which ANY Time_Period column is not null: a skipped row keeps the "
                       "internal form in the file while the in-memory result is formatted again in pandas")
     from sa.checks.c04 import representation_row_filter as _rrf
@@ -308,3 +311,54 @@ def run(rep: Report, tier: str) -> None:
     rep.analysed = {"fetch_result_nodes": len(g.nodes)}
     rep.assumptions = ["DuckDB COPY (query) TO file writes exactly the rows/columns of the query",
                        "Dataset objects coming from semantic analysis carry data=None"]
+
+
+def _date_columns_as_text(P: Program, rep: Report, rule: str) -> None:
+    """_build_dataset_fetch_select evaluated for a result whose table has a DATE column: the one SELECT feeds the DataFrame fetch, the CSV and the
+    Parquet file; a bare DATE column reaches the DataFrame as datetime64 and Parquet as a DATE while CSV shows text - the three no longer hold
+    the same values.  The column must be rendered to text in the SELECT (strftime / CAST AS VARCHAR)."""
+    import re as _re
+    from sa.e6 import ExternalObj, Interp, Raised, Unmodelled
+    fs = P.func("vtlengine.duckdb_transpiler.io._execution._build_dataset_fetch_select")
+
+    class _Rel:
+        def __init__(self, description=None, row=None):
+            self.description, self._row = description, row
+
+        def fetchone(self):
+            return self._row
+
+        def fetchall(self):
+            return [self._row] if self._row is not None else []
+
+    class _Conn:
+        def execute(self, q, *a):
+            if "LIMIT 0" in q.upper():
+                return _Rel(description=[("Id_1", "BIGINT"), ("D", "DATE"), ("S", "VARCHAR")])
+            return _Rel(row=None)
+    dsm = ExternalObj({"components": {"Id_1": None, "D": None, "S": None}, "name": "DS_r"})
+    try:
+        sel = " ".join(str(Interp(P).call(fs, {"conn": _Conn(), "result_name": "DS_r", "ds": dsm})).split())
+    except (Unmodelled, Raised) as e:
+        raise AnalysisError(f"{rule}: _build_dataset_fetch_select outside the evaluator's language: {e}")
+    m = _re.match(r"SELECT (.*) FROM \"DS_r\"$", sel)
+    if not m:
+        raise AnalysisError(f"{rule}: fetch SELECT form not recognised: `{sel[:160]}`")
+    items, depth, cur = [], 0, ""
+    for ch in m.group(1):
+        depth += ch == "("
+        depth -= ch == ")"
+        if ch == "," and depth == 0:
+            items.append(cur.strip())
+            cur = ""
+        else:
+            cur += ch
+    items.append(cur.strip())
+    item = next((i for i in items if _re.search(r'(AS\s+)?"D"$', i)), None)
+    rep.instance(rule, "date-column-select-item", nontrivial=True, sample={"select": sel[:200], "item": item})
+    if item is None:
+        raise AnalysisError(f"{rule}: no select item for the DATE column in `{sel[:160]}`")
+    if not _re.search(r"strftime\s*\(|AS\s+(VARCHAR|TEXT|STRING)\s*\)|::\s*(VARCHAR|TEXT)", item, _re.I):
+        rep.add(Finding(rule, f"{rule}/date-column", fs.module.rel, fs.node.lineno, fs.qualname,
+                        f"a DATE column is selected as `{item}` (no rendering to text): the same SELECT feeds the in-memory fetch (datetime64 values), the CSV file (text "
+                        f"'YYYY-MM-DD') and the Parquet file (DATE type) - the written result and the returned one no longer hold the same values"))
